@@ -126,12 +126,18 @@ def portfolio(pcs, axs, extra, f, timeout_ms, effort=2):
         rounds = [(min(1500, timeout_ms), (0, 1), False)]
     elif effort <= 0:
         rounds = [(min(800, timeout_ms), (0,), False)]
-    for ms, seeds, fresh in rounds:
+    for ri, (ms, seeds, fresh) in enumerate(rounds):
         for seed in seeds:
             last = solve_once(pcs, axs, extra, f, ms, seed, fresh)
             if last in ('unsat', 'sat'):
+                k_ = 'first attempt' if (ri == 0 and seed == seeds[0]) else ('other seed, small budget' if ri == 0 else ('full budget' if ri == 1 else 'fresh context, 3x budget'))
+                ROUND_STATS[k_] = ROUND_STATS.get(k_, 0) + 1
                 return last
+    ROUND_STATS['not decided'] = ROUND_STATS.get('not decided', 0) + 1
     return last
+
+
+ROUND_STATS = {}       # how much of the deterministic budget ladder the queries needed (margin indicator, reported in the evidence)
 
 
 def instances(axioms, terms, max_vars=2):
@@ -337,6 +343,7 @@ def run_spec(spec, tier, live=(), shard=(0, 1)):
             res['inst'] += sw.out
     res['wall'] = time.time() - t0
     res['second'] = dict(SECOND_STATS)
+    res['rounds'] = dict(ROUND_STATS)
     return res
 
 
@@ -1428,6 +1435,10 @@ def record_spec(chk, spec, msgs, findings, conf, falsify_jobs):
     for res in ress:
         for k2, v2 in (res.get('second') or {}).items():
             agg[k2] = agg.get(k2, 0) + v2
+    ragg = chk.extra.setdefault('solver_budget_ladder', {})
+    for res in ress:
+        for k2, v2 in (res.get('rounds') or {}).items():
+            ragg[k2] = ragg.get(k2, 0) + v2
     libs = sorted({l for res in ress for l in res['lib']} | set(GENERIC_LIBS))
     bad_libs = [l for l in libs if not (conf.get(l) or {}).get('ok')]
     groups = {}
